@@ -45,6 +45,8 @@ type c19Case struct {
 	Algs     []string `json:"algs"`     // with Scheme
 	Negative string   `json:"negative"` // "" | truncated | badbase64 | encrypted-pkcs8 | encrypted-legacy | csr | x25519 | empty | nil-reader | missing-file | no-pem | wrong-scheme | bad-alg | flipped
 	Reuse    bool     `json:"reuse"`    // load B into a Key value that already holds A
+	Scribble bool     `json:"scribble,omitempty"` // an earlier key of the same pair was loaded with defaults and its (caller-owned) hash list edited in place
+	Symlink  bool     `json:"symlink,omitempty"`  // key files are reached through a symbolic link (secret mounts, "current" links)
 }
 
 var (
@@ -140,6 +142,19 @@ func c19LoadWith(key *intoto.Key, data []byte, loader, scheme string, algs []str
 		}
 	}()
 	path := filepath.Join(dir, fmt.Sprintf("k%d.pem", time.Now().UnixNano()))
+	if c19ViaSymlink && (loader == "file" || loader == "file-defaults") {
+		real := path + ".data"
+		if e := os.WriteFile(real, data, 0o600); e != nil {
+			return fmt.Errorf("harness: %v", e), nil
+		}
+		if e := os.Symlink(filepath.Base(real), path); e != nil {
+			return fmt.Errorf("harness: %v", e), nil
+		}
+		if loader == "file" {
+			return key.LoadKey(path, scheme, algs), nil
+		}
+		return key.LoadKeyDefaults(path), nil
+	}
 	switch loader {
 	case "file":
 		if e := os.WriteFile(path, data, 0o600); e != nil {
@@ -198,6 +213,9 @@ func (c *chunkReader) Read(p []byte) (int, error) {
 	return n, nil
 }
 
+// c19ViaSymlink is set for the duration of a case whose key files lie behind symbolic links.
+var c19ViaSymlink bool
+
 func c19Gen(t *rapid.T) c19Case {
 	kinds := []string{"ed25519", "p256", "p224", "p384", "p521", "ed25519", "p256", "rsa2048"}
 	if rapid.IntRange(0, 19).Draw(t, "rsa3072") == 0 {
@@ -217,6 +235,8 @@ func c19Gen(t *rapid.T) c19Case {
 	}
 	c.A, c.B = load("a"), load("b")
 	c.Reuse = rapid.IntRange(0, 3).Draw(t, "reuse") == 0
+	c.Scribble = rapid.IntRange(0, 3).Draw(t, "scribble") == 0
+	c.Symlink = rapid.IntRange(0, 2).Draw(t, "symlink") == 0
 	if rapid.IntRange(0, 2).Draw(t, "explicit") == 0 {
 		switch {
 		case strings.HasPrefix(c.Kind, "rsa"):
@@ -286,6 +306,23 @@ func c19Run(c c19Case, r *hx.Rec) error {
 		}
 		return priv, explicit, nil
 	}
+	c19ViaSymlink = c.Symlink
+	defer func() { c19ViaSymlink = false }()
+	if c.Symlink {
+		r.Label("key-file-behind-symlink")
+	}
+	if c.Scribble {
+		// somebody loaded this key before (defaults) and edited the hash list of HIS key object in place
+		var earlier intoto.Key
+		if p, _, e := c19Encode(k, c.A.Form); e == nil {
+			if lerr, _ := c19LoadWith(&earlier, p, "reader-defaults", "", nil, dir); lerr == nil {
+				for i, j := 0, len(earlier.KeyIDHashAlgorithms)-1; i < j; i, j = i+1, j-1 {
+					earlier.KeyIDHashAlgorithms[i], earlier.KeyIDHashAlgorithms[j] = earlier.KeyIDHashAlgorithms[j], earlier.KeyIDHashAlgorithms[i]
+				}
+				r.Label("earlier-key-edited-in-place")
+			}
+		}
+	}
 	var ka, kb intoto.Key
 	privA, explA, err := loadOne(c.A, &ka)
 	if err != nil {
@@ -306,7 +343,7 @@ func c19Run(c c19Case, r *hx.Rec) error {
 	if c.A.Form != c.B.Form {
 		r.Nontrivial()
 	}
-	r.Key("%s|%v|%v|%s|%v|%v", c.Kind, c.A, c.B, c.Scheme, c.Algs, c.Reuse)
+	r.Key("%s|%v|%v|%s|%v|%v|%v|%v", c.Kind, c.A, c.B, c.Scheme, c.Algs, c.Reuse, c.Scribble, c.Symlink)
 
 	for _, x := range []struct {
 		name     string
